@@ -10,7 +10,7 @@ definition.  The predicate below is the SPEC evaluated numerically and independe
 import math
 from fractions import Fraction
 
-from .. import core
+from .. import core, history
 
 PID = "C13"
 THEOREMS = [
@@ -25,12 +25,20 @@ RULE = ("seeded generator over classes {gaussian with |r| in [0,0.3), [0.3,0.75)
         "signs incl. values within 1e-3..1e-6 of the thresholds, zero covariance, far tails (+-40 sigma), variances "
         "1e-2..1e2, tiny covariance matrices (variances 1e-12..1e-6 at correlations up to 0.9999), small variances 1e-4..0.2 at "
         "0.85 <= |r| < 0.925, both coordinates 38..150 sd and 300..1e4 sd out in every quadrant at |r| >= 0.925, shifted means} each evaluated at the four corners of a random box in one vectorised call; "
-        "{uniform kernel on a dyadic grid (exact) and on random doubles}; {norm_cdf}.  One corner per Gaussian case, "
+        "{uniform kernel on a dyadic grid (exact) and on random doubles}; {norm_cdf}; {call histories in one process "
+        "(harness/history.py), 5-8 calls each: ONE covariance container (ndarray, nested list, non-contiguous view) edited in "
+        "place between calls across zero / non-zero covariance, the quadrature regimes, a sign flip and new variances; one mean "
+        "container updated in place; one pair of point buffers refilled; two covariances x two point sets with equal-valued "
+        "arguments being the same objects (nested-list / Fortran-ordered / view covariances, list / tuple means); a rejected "
+        "or out-of-quantifier call (malformed covariance, x and y of different lengths, |covariance| > sqrt(var_x var_y)) "
+        "between clean calls on the same containers, the next call taking the correlated form; gaussian / uniform / norm_cdf "
+        "interleaved on one mean container with the box size swept and the uniform corners inside the box - every call of a "
+        "history must satisfy the predicate on its own, the first call is repeated at the end}.  One corner per Gaussian case, "
         "every uniform / norm_cdf case is certified inside Coq against the model (1e-9 / exact / 1e-10); the first "
         "Gaussian case(s) of every class and every corpus witness are also certified inside Coq against Plackett's "
         "integral (1e-7); all four corners of every case are checked numerically by the predicate.  A case is non-trivial when a Gaussian corner value lies "
         "strictly between 1e-6 and 1-1e-6, or a uniform corner lies strictly inside the box, or it is a tail / "
-        "outside-the-box case by construction; distinct = distinct JSON input")
+        "outside-the-box case by construction; a history is non-trivial when at least two of its calls are; distinct = distinct JSON input")
 TRUSTED_BASE = [
     "Coq 8.16.1 kernel (vm_compute inside the reflexive checkers of coq-interval; no native_compute)",
     "stdlib axioms of the classical reals: ClassicalDedekindReals.sig_forall_dec, sig_not_dec, "
@@ -39,7 +47,9 @@ TRUSTED_BASE = [
     "Plackett's single-integral identity taken as the DEFINITION of the bivariate normal CDF (Spec/BvnS.v: Phi2, bvn_ref); "
     "Phi_int = 1/2 + (2 pi)^(-1/2) int_0^x exp(-t^2/2) dt as the definition of the normal CDF",
     "hand-written model Model/KernelM.v of images_kernels.py (decimal Gauss-Legendre literals as written in the source)",
-    "harness: generators, float -> exact-rational printer, SciPy `quad` reference used by the Python predicate",
+    "harness: generators, float -> exact-rational printer, SciPy `quad` reference used by the Python predicate; call "
+    "histories (harness/history.py: argument objects shared by identity or overwritten in place between calls) are judged "
+    "by the spec predicate only, not by the Coq model",
 ]
 ASSUMPTIONS = [
     "scipy.special.erfc is the complementary error function: norm_cdf is monitored against the RInt definition per run "
@@ -48,6 +58,8 @@ ASSUMPTIONS = [
     "tolerances, not proved; NumPy broadcasting / boolean masks as modelled (one point at a time)",
     "accuracy of the intended bvn model against Plackett's integral is certified at sampled points only (no uniform "
     "quadrature-error theorem)",
+    "independence of a call from earlier calls in the process (no state kept in the module or in argument objects) is "
+    "sampled by the call histories, not proved: the Coq model is a pure function of one call's arguments",
 ]
 COQ_DEPS = ["Corr/KernelCorr.vo"]
 COQ_TIMEOUT = 900
@@ -151,10 +163,156 @@ def _phi_case(rng):
     return {"cls": "normcdf", "kind": "phi", "x": x}
 
 
+# ------------------------------------------------------------------------------ call histories
+def _rho(rng, regime):
+    if regime == 0:
+        return 0.0
+    lo, hi = [(0.01, 0.3), (0.3, 0.75), (0.75, 0.925), (0.925, 0.999)][regime - 1]
+    return rng.choice([-1, 1]) * rng.uniform(lo + 1e-4, hi - 1e-4)
+
+
+def _hstep(rng, mu, var, r, z=None, how=None):
+    """a Gaussian step: mean, variances, correlation, box in standardised coordinates (kept moderate: non-trivial)"""
+    mx, my = mu
+    sxx, syy = var
+    if z is None:
+        w = rng.choice([0.5, 1.0, 1.5])
+        za, zb = rng.gauss(0, w), rng.gauss(0, w)
+        z = [za, za + abs(rng.gauss(0, w)) + 0.05, zb, zb + abs(rng.gauss(0, w)) + 0.05]
+    sx, sy = math.sqrt(sxx), math.sqrt(syy)
+    c = {"cls": "step", "kind": "gauss", "mu": [mx, my], "sigma": [sxx, r * math.sqrt(sxx * syy), syy],
+         "box": [mx + sx * z[0], mx + sx * z[1], my + sy * z[2], my + sy * z[3]]}
+    if how:
+        c["how"] = dict(how)
+    return c
+
+
+def _with_box(c, box):
+    d = dict(c)
+    d["box"] = list(box)
+    return d
+
+
+def _hist_setup(rng):
+    sc = rng.choice(["unit", "vars", "shift", "small"])
+    if sc == "unit":
+        var, mu = (1.0, 1.0), (0.0, 0.0)
+    elif sc == "small":
+        var, mu = (10 ** rng.uniform(-4, -1), 10 ** rng.uniform(-4, -1)), (rng.uniform(-1, 1), rng.uniform(0, 1))
+    else:
+        var = (10 ** rng.uniform(-2, 2), 10 ** rng.uniform(-2, 2))
+        mu = (rng.uniform(-3, 3), rng.uniform(-3, 3)) if sc == "shift" else (0.0, 0.0)
+    return mu, var
+
+
+HIST_KINDS = ("cov_inplace", "fault", "mu_inplace", "pts_inplace", "cov_inplace", "shared", "fault", "mixed")
+FAULTS = ("sigma_shape", "len_mismatch", "not_psd")
+
+
+def _history(rng, kind, variant=None):
+    """One call history (all steps in one process, see harness/history.py).  Every non-fault step is an ordinary
+    case of the property and is judged by the ordinary predicate.  `variant` = how many histories of this kind came
+    before in the run: it fixes the choices that decide WHICH state could be carried over (fault type, correlated
+    vs product form after the fault, mutable vs immutable mean), so that a small sample covers them all."""
+    if variant is None:
+        variant = rng.randrange(12)
+    mu, var = _hist_setup(rng)
+    how = {"sigma_as": rng.choice(SIGMA_AS), "mu_as": rng.choice(MU_AS)}
+    regs = [0] + rng.sample([1, 2, 3, 4], 3)
+    rng.shuffle(regs)
+    if regs[0] == 0 and variant % 2 == 0 and kind in ("pts_inplace", "mu_inplace", "shared"):
+        regs[0], regs[1] = regs[1], regs[0]      # main covariance correlated (even variants), any (odd variants)
+    if kind == "cov_inplace":
+        # one covariance container edited in place between calls: zero <-> non-zero covariance, the quadrature
+        # regimes, sign flips, new variances; fixed or fresh points; the first covariance again at the end
+        how["sigma_slot"] = True
+        if how["sigma_as"] == "forder":
+            how["sigma_as"] = "list"
+        same_pts = rng.random() < 0.5
+        first = _hstep(rng, mu, var, _rho(rng, regs[0]), how=how)
+        steps = [first]
+        v = var
+        for k, g in enumerate(regs[1:] + [rng.choice([0, 4])]):
+            if rng.random() < 0.4:
+                v = (v[0] * rng.choice([0.25, 0.5, 2.0, 4.0]), v[1] * rng.choice([0.25, 0.5, 2.0, 4.0]))
+            r = -steps[-1]["sigma"][1] / math.sqrt(steps[-1]["sigma"][0] * steps[-1]["sigma"][2]) if (k == 1 and steps[-1]["sigma"][1] != 0.0) else _rho(rng, g)
+            st = _hstep(rng, mu, v, r, how=how)
+            steps.append(_with_box(st, first["box"]) if same_pts else st)
+        steps.append(dict(first))
+    elif kind == "mu_inplace":
+        # the imager's loop over persistence pairs: one mean container updated in place, one covariance object
+        how["mu_slot"] = True
+        if how["mu_as"] == "tuple":
+            how["mu_as"] = "list"
+        r = _rho(rng, regs[0] if rng.random() < 0.7 else 0)
+        first = _hstep(rng, mu, var, r, how=how)
+        steps = [first]
+        for _ in range(3):
+            m2 = (mu[0] + math.sqrt(var[0]) * rng.uniform(-1.5, 1.5), mu[1] + math.sqrt(var[1]) * rng.uniform(-1.5, 1.5))
+            st = _hstep(rng, m2, var, r, how=how)
+            steps.append(_with_box(st, first["box"]) if rng.random() < 0.6 else st)
+        steps.append(dict(first))
+    elif kind == "pts_inplace":
+        # one pair of pixel-corner buffers refilled between calls; covariance and mean are the same objects throughout
+        how["pts_slot"] = True
+        r = _rho(rng, regs[0])
+        steps = [_hstep(rng, mu, var, r, how=how) for _ in range(3)]
+        steps.append(_hstep(rng, mu, var, _rho(rng, regs[1]), how=how))
+        steps.append(dict(steps[0]))
+    elif kind == "shared":
+        # two covariances x two point sets, every argument of equal value being the same object: A1 B1 A2 B2 A1
+        a = _hstep(rng, mu, var, _rho(rng, regs[0]), how=how)
+        b = _hstep(rng, mu, var, _rho(rng, regs[1]), how=how)
+        steps = [a, _with_box(b, a["box"]), _with_box(a, b["box"]), b, dict(a)]
+    elif kind == "fault":
+        # a call that is rejected (or is outside the property's quantifier) between clean calls on the same containers
+        how["sigma_slot"] = rng.random() < 0.6
+        if how["sigma_slot"] and how["sigma_as"] == "forder":
+            how["sigma_as"] = "ndarray"
+        if regs[1] == 0:                         # the call right after the fault takes the correlated form
+            regs[0], regs[1] = regs[1], regs[0]
+        a = _hstep(rng, mu, var, _rho(rng, regs[0]), how=how)
+        b = _hstep(rng, mu, var, _rho(rng, regs[1]), how=how)
+        f = FAULTS[variant % len(FAULTS)]
+        bad = dict(_with_box(b, a["box"]), fault=f)
+        if f == "not_psd":      # |covariance| > sqrt(var_x var_y): not a covariance matrix, no claim made
+            bad["sigma"] = [b["sigma"][0], rng.choice([-1, 1]) * 1.5 * math.sqrt(b["sigma"][0] * b["sigma"][2]), b["sigma"][2]]
+        steps = [a, bad, _with_box(b, a["box"]), dict(a), b]
+    else:
+        # the kernels interleaved on the same mean / point objects: gaussian, uniform (mean container updated in place,
+        # box size swept), norm_cdf
+        if variant % 2 == 0 and how["mu_as"] == "tuple":
+            how["mu_as"] = rng.choice(["ndarray", "list"])
+        how["mu_slot"] = how["mu_as"] != "tuple"
+        g1 = _hstep(rng, mu, var, _rho(rng, regs[0]), how=how)
+        g2 = _hstep(rng, mu, var, _rho(rng, regs[1]), how=how)
+        u1 = _uniform_case(rng, rng.random() < 0.5)
+        u1["cls"] = "step"
+        u1["how"] = dict(how)
+        # corners inside the box (and on its edge after the mean moves), so that every step depends on the mean
+        u1["box"] = [u1["mu"][0] - u1["width"] / 4, u1["mu"][0] + u1["width"] / 4,
+                     u1["mu"][1] - u1["height"] / 4, u1["mu"][1] + u1["height"] / 8]
+        u2 = dict(u1, width=u1["width"] * 2.0, height=u1["height"] * 0.5)
+        u3 = dict(u1, mu=[u1["mu"][0] + 0.25 * u1["width"], u1["mu"][1] - 0.25 * u1["height"]])
+        p = _phi_case(rng)
+        p["cls"] = "step"
+        steps = [g1, u1, _with_box(g2, g1["box"]), u2, p, u3, dict(g1), dict(u1)]
+    return history.make(kind, steps)
+
+
+def _histories(rng, n):
+    seen, hs = {}, []
+    for i in range(n):
+        kind = HIST_KINDS[i % len(HIST_KINDS)]
+        hs.append(_history(rng, kind, seen.get(kind, 0)))
+        seen[kind] = seen.get(kind, 0) + 1
+    return hs
+
+
 _TIER = {"tier": "quick"}
 # (quick, thorough) case counts per class; quick is sized for <= ~90 s wall on 16 cores
 COUNTS = {"g_high": (4, 100), "g_mid3": (3, 70), "g_mid6": (4, 90), "g_mid10": (4, 90), "g_zero": (3, 60),
-          "g_tail": (4, 80), "g_xtail": (2, 40), "g_smallvar": (4, 80), "g_tiny": (3, 60), "u_exact": (8, 140), "u_tol": (4, 70), "normcdf": (4, 70)}
+          "g_tail": (4, 80), "g_xtail": (2, 40), "g_smallvar": (4, 80), "g_tiny": (3, 60), "u_exact": (8, 140), "u_tol": (4, 70), "normcdf": (4, 70), "hist": (16, 320)}
 MID = ["g_mid3", "g_mid6", "g_mid10"]
 
 
@@ -184,14 +342,16 @@ def generate(rng, tier):
         cases.append(_uniform_case(rng, False))
     for _ in range(n["normcdf"]):
         cases.append(_phi_case(rng))
-    return cases
+    return cases + _histories(rng, n["hist"])
 
 
 def search_generate(rng, n):
     out = []
     for i in range(n):
         t = i % 10
-        if t < 4:
+        if i % 40 == 5:
+            out.append(_history(rng, HIST_KINDS[(i // 40) % len(HIST_KINDS)]))
+        elif t < 4:
             out.append(_gauss_case(rng, "g_high"))
         elif t < 7:
             out.append(_gauss_case(rng, rng.choice(["g_mid3", "g_mid6", "g_mid10"])))
@@ -228,28 +388,97 @@ def _corners(box):
     return [x1, x2, x1, x2], [y1, y1, y2, y2]
 
 
-def impl_run(cases):
+# How the arguments of one call are handed over (optional key "how" of a step; absent = fresh float64 ndarrays, as a
+# single case always was).  Mathematically irrelevant - the predicate never looks at it.
+#   sigma_as : "ndarray" | "list" (nested list, the form of PersistenceImager's default kernel_params) |
+#              "forder" (Fortran-ordered) | "view" (non-contiguous 2x2 window of a larger array)
+#   mu_as    : "ndarray" | "list" | "tuple"
+#   *_slot   : True = ONE container per history (kept in memo) that is OVERWRITTEN IN PLACE with this step's values
+#              before the call (a caller sweeping a parameter by editing kernel_params['sigma'][i][j], a reused
+#              pixel-corner buffer); False = interned by value, i.e. equal values of different steps are THE SAME object
+SIGMA_AS = ("ndarray", "list", "forder", "view")
+MU_AS = ("ndarray", "list", "tuple")
+
+
+def _sigma_obj(np, memo, c):
+    how = c.get("how") or {}
+    kind = how.get("sigma_as", "ndarray")
+    sxx, sxy, syy = c["sigma"]
+    rows = [[sxx, sxy], [sxy, syy]]
+    if c.get("fault") == "sigma_shape":          # malformed covariance: the call is expected to be rejected
+        return [[sxx]] if kind == "list" else np.array([[sxx]], dtype=float)
+
+    def build():
+        if kind == "list":
+            return [list(rows[0]), list(rows[1])]
+        if kind == "forder":
+            return np.asfortranarray(np.array(rows, dtype=float))
+        if kind == "view":
+            big = np.full((4, 6), -7.0)
+            v = big[1:3, 2:6:2]
+            v[...] = rows
+            return v
+        return np.array(rows, dtype=float)
+    if how.get("sigma_slot"):
+        obj = history.intern(memo, ["slot", "sigma", kind], build)
+        for i in range(2):
+            for j in range(2):
+                obj[i][j] = rows[i][j]               # in place, list and ndarray alike
+        return obj
+    return history.intern(memo, ["val", "sigma", kind, rows], build)
+
+
+def _mu_obj(np, memo, c):
+    how = c.get("how") or {}
+    kind = how.get("mu_as", "ndarray")
+    mx, my = c["mu"]
+    build = {"list": lambda: [mx, my], "tuple": lambda: (mx, my)}.get(kind, lambda: np.array([mx, my], dtype=float))
+    if how.get("mu_slot") and kind != "tuple":
+        obj = history.intern(memo, ["slot", "mu", kind], build)
+        obj[0], obj[1] = mx, my
+        return obj
+    return history.intern(memo, ["val", "mu", kind, [mx, my]], build)
+
+
+def _pts_obj(np, memo, c):
+    how = c.get("how") or {}
+    xs, ys = _corners(c["box"])
+    if how.get("pts_slot"):
+        x = history.intern(memo, ["slot", "x"], lambda: np.zeros(4))
+        y = history.intern(memo, ["slot", "y"], lambda: np.zeros(4))
+        x[:] = xs
+        y[:] = ys
+    else:
+        x = history.intern(memo, ["val", "x", xs], lambda: np.array(xs, dtype=float))
+        y = history.intern(memo, ["val", "y", ys], lambda: np.array(ys, dtype=float))
+    if c.get("fault") == "len_mismatch":         # x and y of different lengths: expected to be rejected
+        y = np.array(ys[:3], dtype=float)
+    return x, y
+
+
+def impl_call(c, memo):
+    """One kernel call.  Within one history (shared memo) equal-valued arguments are the same objects and `slot`
+    arguments are one container updated in place; with an empty memo this is a call on fresh float64 ndarrays."""
     import numpy as np
     from persim import images_kernels as K
-    outs = []
-    for c in cases:
-        def call():
-            if c["kind"] == "gauss":
-                xs, ys = _corners(c["box"])
-                sxx, sxy, syy = c["sigma"]
-                v = K.gaussian(np.array(xs, dtype=float), np.array(ys, dtype=float),
-                               mu=np.array(c["mu"], dtype=float),
-                               sigma=np.array([[sxx, sxy], [sxy, syy]], dtype=float))
-                return {"vals": [float(t) for t in np.asarray(v, dtype=float).ravel()]}
-            if c["kind"] == "uniform":
-                xs, ys = _corners(c["box"])
-                v = K.uniform(np.array(xs, dtype=float), np.array(ys, dtype=float),
-                              mu=np.array(c["mu"], dtype=float), width=c["width"], height=c["height"])
-                return {"vals": [float(t) for t in np.asarray(v, dtype=float).ravel()]}
-            v = K.norm_cdf(np.array([c["x"]], dtype=float))
-            return {"vals": [float(np.asarray(v).ravel()[0])]}
-        outs.append(core.guarded(call))
-    return outs
+
+    def call():
+        if c["kind"] == "gauss":
+            x, y = _pts_obj(np, memo, c)
+            v = K.gaussian(x, y, mu=_mu_obj(np, memo, c), sigma=_sigma_obj(np, memo, c))
+            return {"vals": [float(t) for t in np.asarray(v, dtype=float).ravel()]}
+        if c["kind"] == "uniform":
+            x, y = _pts_obj(np, memo, c)
+            v = K.uniform(x, y, mu=_mu_obj(np, memo, c), width=c["width"], height=c["height"])
+            return {"vals": [float(t) for t in np.asarray(v, dtype=float).ravel()]}
+        x = history.intern(memo, ["val", "phi", c["x"]], lambda: np.array([c["x"]], dtype=float))
+        v = K.norm_cdf(x)
+        return {"vals": [float(np.asarray(v).ravel()[0])]}
+    return core.guarded(call)
+
+
+def impl_run(cases):
+    return [history.run(c, impl_call) if history.is_hist(c) else impl_call(c, {}) for c in cases]
 
 
 # ---------------------------------------------------------------- the spec, independent of the model
@@ -302,6 +531,8 @@ def _box_cdf(c, x, y):
 
 
 def predicate(c, o):
+    if history.is_hist(c):      # every call of the history must satisfy the property on its own
+        return history.predicate(c, o, predicate)
     if "error" in o:
         return False, "error: %s" % o
     vals = o["vals"]
@@ -346,6 +577,8 @@ def predicate(c, o):
 
 
 def nontrivial(c, o):
+    if history.is_hist(c):
+        return history.nontrivial(c, o, nontrivial)
     if "error" in o:
         return False
     if c["kind"] == "phi":
@@ -477,6 +710,9 @@ def coq_judge(cases, outs, results):
     verdicts = ["disagree:not-expressible (exception or non-finite value)"] * len(cases)
     todo = []
     for i, (c, o) in enumerate(zip(cases, outs)):
+        if history.is_hist(c):
+            verdicts[i] = "skip:history (every step is judged by the spec predicate)"
+            continue
         if "error" in o or any(not (v == v) or abs(v) == float("inf") for v in o.get("vals", [float("nan")])):
             continue
         if c["kind"] == "gauss":
@@ -566,6 +802,9 @@ def finding_of(case, out, detail):
 
 
 def shrink_candidates(c):
+    if history.is_hist(c):
+        yield from history.shrink(c)
+        return
     if c["kind"] == "gauss":
         x1, x2, y1, y2 = c["box"]
         if (x1, y1) != (x2, y2):
